@@ -4,6 +4,7 @@ package c01
 
 import (
 	"fmt"
+	"strings"
 	"testing"
 
 	"github.com/cockroachdb/apd/v3"
@@ -111,5 +112,28 @@ func classify(c arith.Case, e arith.Expect, st *core.Stats) {
 	_ = apd.Finite
 }
 
-func TestC01(t *testing.T)       { core.Run(t, "C01", gen, check) }
+// enumerated: operands whose coefficient length sits where the digit count beyond the
+// 128-bit table (a floating-point estimate from the bit length) is most fragile - the
+// convergents and semiconvergents of log10(2) - with a leading-digit pattern just above a
+// power of ten. A digit count that is one short misrounds these by one digit.
+func enumerated() []arith.Case {
+	var out []arith.Case
+	one := core.Dec{Coeff: "1"}
+	zero := core.Dec{Coeff: "0"}
+	for _, k := range []int{146, 643, 2136, 4647, 8651, 12655, 21306} {
+		for _, lead := range []string{"1000045", "1000000", "9999995"} {
+			digits := lead + strings.Repeat("7", k+1-len(lead))
+			x := core.Dec{Coeff: digits, Exp: int32(-k / 2)}
+			for _, mode := range []string{"half_even", "down", "up"} {
+				ctx := core.Ctx{P: 7, Emax: 100000, Emin: -100000, Rounding: mode}
+				out = append(out, arith.Case{Op: "round", Ctx: ctx, X: x, Y: zero},
+					arith.Case{Op: "add", Ctx: ctx, X: x, Y: core.Dec{Coeff: "0", Exp: x.Exp}},
+					arith.Case{Op: "mul", Ctx: ctx, X: x, Y: one})
+			}
+		}
+	}
+	return out
+}
+
+func TestC01(t *testing.T)       { core.RunPre(t, "C01", enumerated(), gen, check) }
 func TestC01Replay(t *testing.T) { core.Replay(t, "C01", check) }
